@@ -60,6 +60,30 @@ fn main() {
             std::process::exit(2)
         });
         let _ = report::CTX.set(Ctx { prop: rf.property.clone(), tier: "quick".into(), seed: rf.seed, jobs, verif: verif.clone(), known: vec![], dry: true });
+        // a recorded hang is replayed under a watchdog
+        if rf.class.ends_with("/hang") {
+            let (prop, sc) = (rf.property.clone(), rf.scenario.clone());
+            let (tx, rx) = std::sync::mpsc::channel();
+            std::thread::spawn(move || {
+                let _ = tx.send(exec_by_prop(&prop, &sc));
+            });
+            match rx.recv_timeout(std::time::Duration::from_secs(30)) {
+                Ok(None) => {
+                    println!("replay of {} returned normally (no hang, no violation)", args[2]);
+                    std::process::exit(0);
+                }
+                Ok(Some(v)) => {
+                    println!("reproduced class={} detail={}", v.class, v.detail);
+                    println!("VIOLATION property={} replay={}", v.property, args[2]);
+                    std::process::exit(1);
+                }
+                Err(_) => {
+                    println!("reproduced class={} : the scenario still does not finish within 30 s", rf.class);
+                    println!("VIOLATION property={} replay={}", rf.property, args[2]);
+                    std::process::exit(1);
+                }
+            }
+        }
         // C05 looks for hidden process state: replay through the same fresh-child path that confirmed it
         let v = if rf.property == "C05" {
             let mut r = None;
